@@ -147,6 +147,11 @@ fn any_checks(r: &mut Rng, m: &mut Vec<String>) {
                 if cat != pc || loc.0 != loc.1 { m.push(format!("FAIL C19 serde_lexpr::from_str({:?}) reports {} at {:?}, the parser reports {} at {:?}", text, cat, loc.0, pc, loc.1)); }
                 if std::error::Error::source(&e).is_none() { m.push(format!("FAIL C19 serde_lexpr error for {:?} has no source", text)); }
                 let _ = format!("{} {:?}", e, e);
+                let want_kind = if pc == "Eof" { std::io::ErrorKind::UnexpectedEof } else { std::io::ErrorKind::InvalidData };
+                match catch_unwind(AssertUnwindSafe(move || std::io::Error::from(e))) {
+                    Ok(ioe) => if ioe.kind() != want_kind { m.push(format!("FAIL C19 serde_lexpr error for {:?} ({}) converts to io::ErrorKind::{:?}", text, pc, ioe.kind())); },
+                    Err(_) => m.push(format!("FAIL C19 converting the serde_lexpr error for {:?} into io::Error panicked", text)),
+                }
             }
             (Ok(_), Err(p)) => m.push(format!("FAIL C19 serde_lexpr::from_str({:?}) succeeded although the parser fails with {}", text, p)),
             _ => {}
@@ -158,6 +163,11 @@ fn any_checks(r: &mut Rng, m: &mut Vec<String>) {
         Err(e) => {
             if format!("{:?}", e.classify()) != "Io" || e.location().is_some() { m.push(format!("FAIL C06 serde_lexpr::from_reader on a failing reader reports {:?} {}", e.classify(), e)); }
             if std::error::Error::source(&e).is_none() { m.push("FAIL C06 serde_lexpr I/O error has no source".into()); }
+            // ... and converting it into io::Error hands back the reader's own error
+            match catch_unwind(AssertUnwindSafe(move || std::io::Error::from(e))) {
+                Ok(ioe) => if ioe.to_string() != "injected-read-fault" { m.push(format!("FAIL C19 serde_lexpr read error converts to a different io::Error: {}", ioe)); m.push(format!("FAIL C06 serde_lexpr read error converts to a different io::Error: {}", ioe)); },
+                Err(_) => { m.push("FAIL C19 converting a serde_lexpr read error into io::Error panicked".into()); m.push("FAIL C06 converting a serde_lexpr read error into io::Error panicked".into()); }
+            }
         }
         Ok(x) => m.push(format!("FAIL C06 serde_lexpr::from_reader on a failing reader returned {:?}", x)),
     }
